@@ -37,6 +37,9 @@ class Fn:
     unroll: object = None               # R18: "all" or list of loop ordinals with constant bounds to unroll
     unroll_ty: object = "usize"         # type of the unrolled loop variable (or {ordinal: type})
     loops: dict = field(default_factory=dict)   # ordinal -> "invariant ..., decreases ..."
+    loops_begin: dict = field(default_factory=dict)   # ordinal -> ghost/proof text placed first in the loop body
+    loops_end: dict = field(default_factory=dict)     # ordinal -> proof text placed last in the loop body
+    ghost_iter: dict = field(default_factory=dict)    # R22: ordinal -> name of the ghost iterator (`for x in NAME: e`)
     subst: list = field(default_factory=list)   # [(rule, regex, repl)] applied to sig+body text
     props: tuple = ()
     attrs: str = ""                     # extra verus attributes, e.g. #[verifier::exec_allows_no_decreases_clause]
@@ -363,6 +366,10 @@ def build_fn(unit, item, imp, fnitem, spec: Fn, cover=False):
         applied.append(("R1", "mut self", f"let mut self_ = self; ({n} uses renamed)"))
     # R2: debug assertions
     body = _remove_macro_stmts(body, ["debug_assert", "debug_assert_eq", "debug_assert_ne"], applied)
+    # R14b: a `const` item local to a fn body becomes a `let` (same value; Verus consts cannot read exec consts)
+    body, n14 = _code_sub(body, r'\bconst\s+([A-Z_]\w*)\s*:', r'let \1:')
+    if n14:
+        applied.append(("R14b", "local const X: T = E;", f"let X: T = E; x{n14}"))
     # R3: Lazy statics
     if unit.lazy_names:
         names = '|'.join(unit.lazy_names)
@@ -386,7 +393,8 @@ def build_fn(unit, item, imp, fnitem, spec: Fn, cover=False):
             applied.append((rule, rx, f"{rp} x{n}"))
         sig, body = whole2.split("\x00")
     # R21: operators on non-primitive operands -> the trait calls they desugar to
-    if (getattr(unit, "ufcs", False) or spec.name in getattr(unit, "ufcs_fns", ())) and not spec.no_ufcs:
+    _uf = getattr(unit, "ufcs", False) and (not getattr(unit, "ufcs_only", None) or item.file in unit.ufcs_only)
+    if (_uf or spec.name in getattr(unit, "ufcs_fns", ())) and not spec.no_ufcs:
         from . import ufcs as _ufcs
         try:
             body, n21 = _ufcs.rewrite_body(body)
@@ -397,6 +405,29 @@ def build_fn(unit, item, imp, fnitem, spec: Fn, cover=False):
     # R18: unroll constant-bound `for` loops (no invariant needed, so no reference to the body's locals)
     if spec.unroll:
         body = _unroll(unit, item, spec, body, applied)
+    # R22 / loop-body proof text (addressed by loop ordinal, never by the text of a statement)
+    if spec.ghost_iter or spec.loops_begin or spec.loops_end:
+        sb = Src("<b>", body)
+        offs = _find_loops(body)
+        kws = [m_ for m_ in re.finditer(r'\b(for|while|loop)\b', body) if sb.mask[m_.start()]]
+        edits = []
+        for ordn in set(spec.ghost_iter) | set(spec.loops_begin) | set(spec.loops_end):
+            if ordn >= len(offs):
+                raise LostAnchor(f"{item.file} :: {item.header} :: {spec.name}: loop #{ordn} not found ({len(offs)} loops)")
+            o = offs[ordn]
+            c = sb.match_close(o)
+            if ordn in spec.loops_end:
+                edits.append((c, c, "\n            proof { " + spec.loops_end[ordn].strip() + " }\n        "))
+            if ordn in spec.loops_begin:
+                edits.append((o + 1, o + 1, "\n            " + spec.loops_begin[ordn].strip() + "\n"))
+            if ordn in spec.ghost_iter:
+                hm = re.compile(r'\s+in\s+').search(body, kws[ordn].end(), o)
+                if not hm:
+                    raise Unsupported(f"{spec.name}: loop #{ordn} is not a for-in loop")
+                edits.append((hm.end(), hm.end(), spec.ghost_iter[ordn] + ": "))
+                applied.append(("R22", "for x in e", f"for x in {spec.ghost_iter[ordn]}: e"))
+        for (a_, b_, t_) in sorted(edits, key=lambda e: -e[0]):
+            body = body[:a_] + t_ + body[b_:]
     # loop invariants
     if spec.loops:
         offs = _find_loops(body)
@@ -476,7 +507,10 @@ def build_const(unit, item, cst, spec: Fn, cover=False):
 
 
 def widen_fields(text):
-    """R17 for struct definitions: every field becomes `pub` (items are spread over sibling modules)"""
+    """R17 for struct definitions: every field becomes `pub` (items are spread over sibling modules);
+    R2: `Debug` is dropped from derive lists (formatting glue, needs Debug on stand-in types)"""
+    text = re.sub(r'(#\[derive\([^)]*?)\bDebug\s*,\s*', r'\1', text)
+    text = re.sub(r'(#\[derive\([^)]*?),\s*Debug\b', r'\1', text)
     m = re.search(r'\bstruct\s+\w+\s*(<[^>]*>)?\s*([({])', text)
     if not m:
         return text
@@ -484,26 +518,28 @@ def widen_fields(text):
     s = Src("<s>", text)
     c = s.match_close(o)
     inner = text[o + 1:c]
-    # split fields at top-level commas
+    # split fields at top-level commas (code positions only)
     fields = []
     d = 0
     cur = ""
-    for ch in inner:
-        if ch in "(<[{":
-            d += 1
-        elif ch in ")>]}":
-            d -= 1
-        if ch == "," and d == 0:
-            fields.append(cur)
-            cur = ""
-        else:
-            cur += ch
+    si = Src("<f>", inner)
+    for k_, ch in enumerate(inner):
+        if si.mask[k_]:
+            if ch in "(<[{":
+                d += 1
+            elif ch in ")>]}":
+                d -= 1
+            if ch == "," and d == 0:
+                fields.append(cur)
+                cur = ""
+                continue
+        cur += ch
     if cur.strip():
         fields.append(cur)
     out = []
     for f_ in fields:
         # keep leading comments/attrs, add pub before the field if missing
-        m2 = re.match(r'(?s)((?:\s*(?://[^\n]*\n|#\[[^\]]*\]))*\s*)(.*)', f_)
+        m2 = re.match(r'(?s)((?:\s*(?://[^\n]*(?:\n|$)|#\[[^\]]*\]))*\s*)(.*)', f_)
         lead, rest = m2.group(1), m2.group(2)
         rest = re.sub(r'^pub\s*\([^)]*\)\s*', '', rest)
         if rest.strip() and not re.match(r'pub\b', rest):
